@@ -458,6 +458,20 @@ fn mutate(r: &mut Rng, g: i64) -> (IG, &'static str) {
             rings.push(h);
             (IG::Polygon(rings), "holes_overlap")
         }
+        (8, IG::MultiPolygon(mut ms)) if !ms.is_empty() && r.chance(1, 3) => {
+            // a member that lies wholly INSIDE another one (shells do not meet): a rectangle around everything, listed
+            // last or first
+            let cs: Vec<IP> = ms.iter().flatten().flatten().cloned().collect();
+            let (x0, x1) = (cs.iter().map(|p| p.0).min().unwrap() - 1, cs.iter().map(|p| p.0).max().unwrap() + 1);
+            let (y0, y1) = (cs.iter().map(|p| p.1).min().unwrap() - 1, cs.iter().map(|p| p.1).max().unwrap() + 1);
+            let outer = vec![vec![(x0, y0), (x1, y0), (x1, y1), (x0, y1), (x0, y0)]];
+            if r.chance(1, 2) {
+                ms.push(outer);
+            } else {
+                ms.insert(0, outer);
+            }
+            (IG::MultiPolygon(ms), "member_inside_member")
+        }
         (8, IG::MultiPolygon(mut ms)) if !ms.is_empty() => {
             // overlapping / edge-sharing / identical members
             let k = r.below(ms.len() as u64) as usize;
